@@ -193,3 +193,160 @@ def attach_c12(run, rt):
     rt.attach(T, "do_target", name="target.do_target", pre=pre_target, post=post_target, on_exc=exc_target, also=[(K, "do_target")])
     rt.attach(A, "do_antitarget", name="antitarget.do_antitarget", pre=pre_antitarget, post=post_antitarget, on_exc=exc_antitarget, also=[(K, "do_antitarget")])
     return traced
+
+
+# ============================================================ C13: access
+
+def fasta_runs(path):
+    """[(name, [(s, e)])]: maximal runs of characters other than 'N', by a plain
+    character scan of the newline-free sequence."""
+    seqs = []
+    name, chunks = None, []
+    with open(path) as fh:
+        for line in fh:
+            if line.startswith(">"):
+                if name is not None:
+                    seqs.append((name, "".join(chunks)))
+                name, chunks = line[1:].split(None, 1)[0] if line[1:].split() else "", []
+            else:
+                chunks.append(line.rstrip())
+        if name is not None:
+            seqs.append((name, "".join(chunks)))
+    out = []
+    for name, seq in seqs:
+        runs, start = [], None
+        for i, ch in enumerate(seq):
+            if ch != "N":
+                if start is None:
+                    start = i
+            elif start is not None:
+                runs.append((start, i))
+                start = None
+        if start is not None:
+            runs.append((start, len(seq)))
+        out.append((name, runs, len(seq)))
+    return out
+
+
+def read_bed3(path):
+    rows = []
+    with open(path) as fh:
+        for line in fh:
+            f = line.rstrip("\n").split("\t")
+            if len(f) >= 3 and not line.startswith(("track", "#", "browser")):
+                rows.append((f[0], int(f[1]), int(f[2])))
+    return rows
+
+
+def pre_get_regions(run, args, kwargs):
+    return {"path": args[0]}
+
+
+def post_get_regions(run, snap, res, args, kwargs):
+    mon = "access.get_regions"
+    try:
+        truth = fasta_runs(snap["path"])
+    except Exception:
+        return run.ood(mon, "unreadable-fasta")
+    names = [t[0] for t in truth]
+    if len(set(names)) != len(names):
+        return run.ood(mon, "duplicate-sequence-names")
+    want = [(n, s, e) for n, runs, _l in truth for s, e in runs]
+    got = [(str(c), int(s), int(e)) for c, s, e in res]
+    if got != want:
+        extra = [g for g in got if g not in want][:3]
+        missing = [w for w in want if w not in got][:3]
+        with open(snap["path"]) as fh:
+            text = fh.read(3000)
+        return run.violate(mon, "non-N-runs", f"reported {extra}, character scan gives {missing}", {"fasta": text, "got": got[:40], "want": want[:40]})
+    run.held(mon, "get_regions:" + ("empty" if not want else "runs"))
+    run.extra["get_regions:sequences"] += len(truth)
+
+
+def pre_access(run, args, kwargs):
+    return {"path": args[0], "excludes": list(_arg(args, kwargs, 1, "exclude_fnames", ())), "min_gap": _arg(args, kwargs, 2, "min_gap_size", 5000),
+            "skip": bool(_arg(args, kwargs, 3, "skip_noncanonical", True))}
+
+
+def post_access(run, snap, res, args, kwargs):
+    mon = "access.do_access"
+    try:
+        truth = fasta_runs(snap["path"])
+        ex = [read_bed3(p) for p in snap["excludes"]]
+    except Exception:
+        return run.ood(mon, "unreadable-input")
+    names = [t[0] for t in truth]
+    if len(set(names)) != len(names):
+        return run.ood(mon, "duplicate-sequence-names")
+    if any(r[2] <= r[1] for rows in ex for r in rows):
+        return run.ood(mon, "zero-width-exclude")
+    keep = [t for t in truth if not (snap["skip"] and noncanonical(t[0]))]
+    space = {n: runs for n, runs, _l in keep if runs}
+    for rows in ex:
+        space = M.set_subtract(space, M.base_set(rows))
+    mg = snap["min_gap"] or 0
+    want = []
+    for n, _runs, _l in keep:
+        cur = None
+        for s, e in space.get(n, []):
+            if cur is not None and s - cur[1] < mg:
+                cur[1] = e
+            else:
+                if cur is not None:
+                    want.append((n, cur[0], cur[1]))
+                cur = [s, e]
+        if cur is not None:
+            want.append((n, cur[0], cur[1]))
+    got = ga_rows(res)
+    got = [g[:3] for g in got]
+    with open(snap["path"]) as fh:
+        text = fh.read(3000)
+    wit = {"fasta": text, "excludes": [rows[:30] for rows in ex], "min_gap": snap["min_gap"], "skip_noncanonical": snap["skip"], "got": got[:40], "want": want[:40]}
+    # universal clauses
+    for g in got:
+        if g[2] <= g[1]:
+            return run.violate(mon, "access-empty-region", f"empty region {g}", wit)
+    for p, q in zip(got, got[1:]):
+        if p[0] == q[0] and q[1] <= p[2]:
+            return run.violate(mon, "access-regions-touch", f"regions {p} and {q} are unsorted or touch", wit)
+    if sorted(got) != sorted(want) or M.chrom_groups(got) is None:
+        extra = [g for g in got if g not in want][:3]
+        missing = [w for w in want if w not in got][:3]
+        dropped = snap["skip"] and any(noncanonical(g[0]) for g in got)
+        lost = [w for w in missing if w[0] not in {g[0] for g in got}]
+        if dropped:
+            mech = "access-noncanonical-kept"
+        elif lost and not snap["skip"]:
+            mech = "access-contig-dropped"
+        elif ex and any(x for x in extra):
+            mech = "access-exclude"
+        else:
+            mech = "access-join" if mg else "access-runs"
+        return run.violate(mon, mech, f"reported {extra}, expected {missing}", wit)
+    run.held(mon, "access:" + (f"{len(ex)}excl" if ex else "noexcl") + (":join" if mg else ":nojoin") + (":skip" if snap["skip"] else ""))
+
+
+def exc_access(run, snap, exc, args, kwargs):
+    mon = "access.do_access"
+    if snap is None:
+        return
+    try:
+        ex = [read_bed3(p) for p in snap["excludes"]]
+        fasta_runs(snap["path"])
+    except Exception:
+        return run.ood(mon, "unreadable-input")
+    if any(r[2] <= r[1] for rows in ex for r in rows):
+        return run.ood(mon, "zero-width-exclude")
+    with open(snap["path"]) as fh:
+        text = fh.read(3000)
+    run.violate(mon, f"access-raises-{type(exc).__name__}", f"raised {exc!r}", {"fasta": text, "excludes": [rows[:30] for rows in ex], "min_gap": snap["min_gap"]})
+
+
+def attach_c13(run, rt):
+    import cnvlib.access as A
+    import cnvlib.commands as K
+    traced = [("access.get_regions", A.get_regions), ("access.do_access", A.do_access), ("access.join_regions", A.join_regions),
+              ("access.drop_noncanonical_contigs", A.drop_noncanonical_contigs)]
+    rt.attach(A, "get_regions", name="access.get_regions", pre=pre_get_regions, post=post_get_regions, generator=True)
+    rt.attach(A, "do_access", name="access.do_access", pre=pre_access, post=post_access, on_exc=exc_access, also=[(K, "do_access")])
+    return traced
